@@ -7,6 +7,7 @@ package extract
 //   key/store.go        Reset: order of the Delete calls; Save: writes the target file in place
 //   dkg/execution.go    executeAndFinishDKG: SaveFinished precedes the hand-over on completedDKGs
 //   boltdb/store.go, trimmed.go  Put: one db.Update with one bucket.Put
+//   beacon/store.go     callbackStore.Put: the underlying Put (error => return) precedes the dispatch
 // Any other shape is a T-break.
 
 import (
@@ -248,6 +249,44 @@ func genCrashShape(repo string) (string, error) {
 	if chainShapes[0] != chainShapes[1] {
 		return tb("boltdb Put shapes differ between the two stores: %v", chainShapes)
 	}
+	// callbackStore.Put: `if err := c.Store.Put(ctx, b); err != nil { return err }` first, the
+	// dispatch to the callback workers (send on the job channel inside the range over c.callbacks) after
+	bs, err := parseFile(repo, "internal/chain/beacon/store.go")
+	if err != nil {
+		return "", err
+	}
+	cbp := sfFindFunc(bs, "callbackStore", "Put")
+	if cbp == nil {
+		return tb("callbackStore.Put not found")
+	}
+	var cbPosPut, cbPosSend token.Pos
+	cbNPut, cbNSend, putGuarded := 0, 0, false
+	ast.Inspect(cbp.Body, func(n ast.Node) bool {
+		switch x := n.(type) {
+		case *ast.IfStmt:
+			// if err := c.Store.Put(ctx, b); err != nil { return err }
+			if as, ok := x.Init.(*ast.AssignStmt); ok && len(as.Rhs) == 1 {
+				if c, ok := as.Rhs[0].(*ast.CallExpr); ok && sfChain(c.Fun) == "c.Store.Put" && len(x.Body.List) == 1 {
+					if _, ok := x.Body.List[0].(*ast.ReturnStmt); ok {
+						putGuarded = true
+					}
+				}
+			}
+		case *ast.CallExpr:
+			if sfChain(x.Fun) == "c.Store.Put" {
+				cbPosPut = x.Pos()
+				cbNPut++
+			}
+		case *ast.SendStmt:
+			cbPosSend = x.Pos()
+			cbNSend++
+		}
+		return true
+	})
+	if cbNPut != 1 || cbNSend != 1 {
+		return tb("callbackStore.Put: expected one c.Store.Put call and one send to the callback workers (got %d, %d)", cbNPut, cbNSend)
+	}
+	cbWriteFirst := cbPosPut < cbPosSend && putGuarded
 	coqTxs := func(txs [][]string) string {
 		var parts []string
 		for _, tx := range txs {
@@ -264,7 +303,7 @@ func genCrashShape(repo string) (string, error) {
 	var sb strings.Builder
 	sb.WriteString("(* GENERATED by zzv extract (harness/extract/crashshape.go) from internal/dkg/store.go, execution.go,\n   internal/core/drand_beacon.go, common/key/store.go, internal/chain/boltdb/{store,trimmed}.go; do not edit. *)\n")
 	sb.WriteString("From Coq Require Import ZArith List.\nFrom DV Require Import Model.Crash.\nImport ListNotations.\nOpen Scope Z_scope.\n")
-	fmt.Fprintf(&sb, "Definition crash_shape : shape :=\n  mkShape %s (* SaveCurrent *)\n    %s (* SaveFinished *)\n    [%s] (* storeDKGOutput *)\n    [%s] (* Reset *)\n    %s (* SaveFinished before hand-over *)\n    %s (* boltdb Put *)\n    %s (* Save in place *).\n",
-		coqTxs(cur), coqTxs(fin), strings.Join(storeOrder, "; "), strings.Join(resetOrder, "; "), b(posSave < posSend), chainShapes[0], b(inPlace))
+	fmt.Fprintf(&sb, "Definition crash_shape : shape :=\n  mkShape %s (* SaveCurrent *)\n    %s (* SaveFinished *)\n    [%s] (* storeDKGOutput *)\n    [%s] (* Reset *)\n    %s (* SaveFinished before hand-over *)\n    %s (* boltdb Put *)\n    %s (* Save in place *)\n    %s (* callbackStore.Put: write (error returns) before dispatch *).\n",
+		coqTxs(cur), coqTxs(fin), strings.Join(storeOrder, "; "), strings.Join(resetOrder, "; "), b(posSave < posSend), chainShapes[0], b(inPlace), b(cbWriteFirst))
 	return sb.String(), nil
 }
